@@ -105,5 +105,24 @@ for n, r, b in [(7, 2, 0.5), (8, 3, 1.0), (6, 1, 0.9)]:
       add("_fd_update_root", [n, r, b, t], "stored inverse roots != (l + t)^(-1/p)")
     prev = val
 
+# wide and rank-deficient gradient blocks: R R' = G G' and R finite
+for shape, kind in [((6, 9), "rank-1"), ((6, 9), "zero-row"), ((5, 5), "rank-2"), ((4, 3, 5), "rank-1"), ((6, 9), "full")]:
+  cases += 1
+  if kind == "rank-1":
+    a = rng.randn(shape[0]).astype(np.float32)
+    g = np.multiply.outer(a, rng.randn(*shape[1:]).astype(np.float32))
+  elif kind == "rank-2":
+    g = (rng.randn(shape[0], 2) @ rng.randn(2, shape[1])).astype(np.float32)
+  else:
+    g = rng.randn(*shape).astype(np.float32)
+    if kind == "zero-row":
+      g[2] = 0
+  R = np.asarray(ds.frequent_directions_update(None, jnp.asarray(g), 0, 0.0, 0.0), np.float64)
+  x = g.reshape(shape[0], -1).astype(np.float64)
+  if not np.all(np.isfinite(R)):
+    add("frequent_directions_update", [list(shape), kind], "factor R is not finite for a finite gradient block")
+  elif np.max(np.abs(R @ R.T - x @ x.T)) > 1e-4 * (np.max(np.abs(x @ x.T)) + 1e-12):
+    add("frequent_directions_update", [list(shape), kind], "R R' != G G'")
+
 print(json.dumps({"cases": cases, "violations": viol,
                   "bound": f"tier={tier}: 4 Sketchy and 3 DS-FD configurations x histories of 5..15 steps (rank-one, zero, scale-varying gradients), seed {seed}"}))
